@@ -22,6 +22,7 @@ const (
 	shOnlyU
 	shNone
 	shIface // T is an interface type (Both); values are *P or a nil interface
+	shPV    // T is *V: a pointer to a type whose marshalers have value receivers
 	numShapes
 )
 
@@ -36,7 +37,7 @@ type Both interface {
 	json.Unmarshaler
 }
 
-var shapeNames = [...]string{"V(value marshalers, pointer unmarshalers)", "*P(pointer type)", "OnlyM", "OnlyU", "None", "Both(interface-typed T holding *P or nil)"}
+var shapeNames = [...]string{"V(value marshalers, pointer unmarshalers)", "*P(pointer type)", "OnlyM", "OnlyU", "None", "Both(interface-typed T holding *P or nil)", "*V(pointer to value-receiver type)"}
 var helperNames = [...]string{"MarshalText", "UnmarshalText", "MarshalBinary", "UnmarshalBinary", "MarshalJSON", "UnmarshalJSON"}
 
 // listSpec is one helper invocation.
@@ -54,7 +55,7 @@ func (ls listSpec) helper() string { return helperNames[ls.enc*2+ls.dir] }
 // hasInterface: does the shape implement the interface this helper needs?
 func (ls listSpec) hasInterface() bool {
 	switch ls.shape {
-	case shV, shP, shIface:
+	case shV, shP, shIface, shPV:
 		return true
 	case shOnlyM:
 		return ls.dir == dirMarshal
@@ -312,6 +313,13 @@ func execList(ls listSpec, keepMsgs bool) (l *listRun, escaped interface{}) {
 			runEnc(l, ls, func(i int, c caseSpec) OnlyU { return OnlyU{i + 1, c.payload} })
 		case shNone:
 			runEnc(l, ls, func(i int, c caseSpec) None { return None{i + 1, c.payload} })
+		case shPV:
+			runEnc(l, ls, func(i int, c caseSpec) *V {
+				if c.beh == bNilReceiver || (c.nilValue && ls.dir == dirUnmarshal) {
+					return nil
+				}
+				return &V{i + 1, c.payload}
+			})
 		case shIface:
 			runEnc(l, ls, func(i int, c caseSpec) Both {
 				if c.nilIface {
@@ -401,13 +409,14 @@ func judge(ls listSpec, l *listRun, escaped interface{}) *core.Violation {
 func normalise(ls *listSpec) {
 	for i := range ls.cases {
 		c := &ls.cases[i]
-		if c.beh == bNilReceiver && (ls.shape != shP || ls.dir != dirMarshal) {
+		ptrShape := ls.shape == shP || ls.shape == shPV
+		if c.beh == bNilReceiver && (!ptrShape || ls.dir != dirMarshal) {
 			c.beh = bPanicString
 		}
 		if c.beh == bPanicAfterSet && ls.dir == dirMarshal {
 			c.beh = bPanicString
 		}
-		if c.nilValue && (ls.shape != shP || ls.dir != dirUnmarshal) {
+		if c.nilValue && (!ptrShape || ls.dir != dirUnmarshal) {
 			c.nilValue = false
 		}
 		if c.nilIface {
